@@ -831,8 +831,10 @@ def write_layouts(chk, root):
         # identities: the file a target's open reaches (None: the open fails)
         ident, node = {}, []
         for k, (kind, to) in enumerate(spec):
-            if kind in ('new', 'old', 'ext', 'extmissing', 'full'):
-                ident[k] = len(ident) + 1
+            if kind in ('new', 'old', 'ext', 'extmissing'):
+                ident[k] = len(set(ident.values())) + 1
+            elif kind == 'full':        # every link to /dev/full reaches the one device file
+                ident[k] = next((ident[j] for j in ident if spec[j][0] == 'full'), len(set(ident.values())) + 1)
         for k, (kind, to) in enumerate(spec):
             node.append(None if kind == 'dir' or (to is not None and spec[to][0] == 'dir') else ident[k] if to is None else ident[to])
         exists = {}
@@ -841,7 +843,7 @@ def write_layouts(chk, root):
                 exists[ident[k]] = 'old text of %d, longer than what is generated\n' % k * 3
             elif kind == 'full':
                 exists[ident[k]] = ''
-        full = [ident[k] for k, (kind, to) in enumerate(spec) if kind == 'full']
+        full = sorted(set(ident[k] for k, (kind, to) in enumerate(spec) if kind == 'full'))
         texts = ['generated %d\n' % k * (k + 1) for k in range(n)]
         order = list(range(n))
         rng.shuffle(order)
